@@ -19,7 +19,8 @@
 #include "../../core/interpreter.h"
 #include "../../event_loop/event_loop.h"        // v0.12.0: EventLoop
 #include "../../event_loop/simple_event_loop.h" // v0.13.0: SimpleEventLoop
-#include "../../ffi_manager.h"                  // v0.13.0: FFI Manager
+#include "../../executors/assignments/const_check_helpers.h"
+#include "../../ffi_manager.h" // v0.13.0: FFI Manager
 #include "../../managers/types/enums.h"
 #include "../../managers/types/manager.h"
 #include "evaluator/access/receiver_resolution.h"
@@ -5829,6 +5830,18 @@ int64_t ExpressionEvaluator::evaluate_function_call_impl(const ASTNode *node) {
                                     arg_pointer_base_type_name =
                                         arg_var->pointer_base_type_name;
                                 }
+                            }
+
+                            // const T* を返す関数の結果を T* の仮引数に渡すのも
+                            // 禁止: wr(getp()) （変数の場合は下でチェック）
+                            if (param->is_pointer && !arg_is_pointer) {
+                                AssignmentHelpers::
+                                    check_pointer_const_conversion(
+                                        interpreter_, arg.get(),
+                                        param->is_pointee_const_qualifier,
+                                        "parameter '" + param->name +
+                                            "' of function '" + node->name +
+                                            "'");
                             }
 
                             TypedValue arg_value =
